@@ -196,3 +196,56 @@ Definition histogram (eng : engine) (x : list float) (lo hi : option float) (m :
         Ok (mkOut (mkParams dmin dmax bsize nbin) s w hist rev)
     end
   end.
+
+(* ------------------------------------------------------------ named constants *)
+(* The constants and small decisions of the anchored code, by name.  Proofs.v (`*_const` lemmas)
+   ties each of them to the functions above; harness/props/c05_translate.py regenerates them from
+   the source of the tree under test on every run and Exec.consts_agree compares. *)
+Definition default_binsize : float := 1%float.     (* histogram(binsize=1.0)            util.py:483 *)
+Definition nbin_plus : Z := 1.                      (* np.int64((dmax-dmin)/binsize) + 1  util.py:182 *)
+Definition rev_extra : Z := 1.                      (* revsize = sortind.size + nbin + 1  util.py:261,281 *)
+Definition binold_init : Z := -1.                   (* binnum_old = -1                    both engines *)
+Definition offset_init : Z := 1.                    (* offset = nbin + 1 / i + nbin + 1   both engines *)
+Definition offset_end_init : Z := 1.                (* offset_end = nbin + 1              both engines *)
+Definition offset_end_step : Z := 1.                (* offset_end = offset + 1            both engines *)
+Definition lo_inclusive : bool := true.             (* self.x[s] >= xmin                  util.py:333 *)
+Definition hi_inclusive : bool := true.             (* self.x[s] <= xmax *)
+Definition sort_stable : bool := true.              (* argsort(kind="stable")             util.py:301 *)
+Definition hist_nbin_overrides : bool := true.      (* histogram(): if nbin is not None: binsize = None *)
+Definition binner_binsize_first : bool := true.     (* _hist_by_binsize_or_nbin tests binsize first *)
+
+(* ------------------------------------------------------------ option handling *)
+(* histogram(data, binsize=1.0, nbin=None, min=None, max=None, ...) (util.py:480-598): nbin, when
+   given, overrides binsize.  Binner.dohist(binsize=None, nbin=None, ...) (util.py:121-196): the
+   limits are applied first, then binsize is looked at before nbin; neither given ->
+   ValueError("Send binsize or nbin or nperbin"). *)
+Inductive api := ApiHistogram | ApiBinner.
+Inductive kw := KwOmit | KwNone | KwVal (v : float).       (* the binsize= keyword *)
+
+Definition kw_binsize (a : api) (k : kw) : option float :=
+  match k with
+  | KwVal v => Some v
+  | KwNone => None
+  | KwOmit => match a with ApiHistogram => Some default_binsize | ApiBinner => None end
+  end.
+
+Definition resolve (a : api) (k : kw) (nbin : option Z) : option mode :=
+  match a with
+  | ApiHistogram =>
+      match nbin with
+      | Some n => Some (ByNbin n)
+      | None => match kw_binsize a k with Some b => Some (ByBinsize b) | None => None end
+      end
+  | ApiBinner =>
+      match kw_binsize a k with
+      | Some b => Some (ByBinsize b)
+      | None => match nbin with Some n => Some (ByNbin n) | None => None end
+      end
+  end.
+
+Definition histogram_api (eng : engine) (a : api) (x : list float) (lo hi : option float)
+           (k : kw) (nbin : option Z) : result outcome :=
+  match resolve a k nbin with
+  | Some m => histogram eng x lo hi m
+  | None => match limits x (argsort x) lo hi with Err e => Err e | Ok _ => Err EValue end
+  end.
